@@ -190,6 +190,7 @@ package participle
 
 // !expr: the child runs on a branch that is never adopted; on success exactly one token is taken with Next.
 //@ func (*negation).Parse [C01 C02 C10 C06 C08]
+//@   before call node.Parse#1: assert arg1 != ctx && fresh(arg1) && arg2 == parent [C02 C01]
 //@   frame-tags C09
 //@   implements node.Parse
 //@   use wfNegation(n) at entry
@@ -199,6 +200,7 @@ package participle
 
 // (?= expr) / (?! expr): never consumes, never defers.
 //@ func (*lookaheadGroup).Parse [C01 C02 C06]
+//@   before call node.Parse#1: assert arg1 != ctx && fresh(arg1) && arg2 == parent [C02 C01]
 //@   frame-tags C09
 //@   implements node.Parse
 //@   use wfLookahead(l) at entry
@@ -207,6 +209,7 @@ package participle
 
 // Capture "@expr": exactly one deferred capture iff the child produced a value; it targets the enclosing struct.
 //@ func (*capture).Parse [C01 C02 C10 C11 C06]
+//@   before call node.Parse#1: assert arg1 == ctx && arg2 == parent [C13 C01 C02]
 //@   frame-tags C09
 //@   implements node.Parse
 //@   use wfCapture(c) at entry
@@ -276,6 +279,7 @@ package participle
 //@   requires n != nil
 //@   ensures n.next != s
 //@ func (*sequence).Parse [C01 C02 C06 C13]
+//@   before call node.Parse#1: assert arg1 == ctx && arg2 == parent [C13 C01 C02]
 //@   frame-tags C09
 //@   implements node.Parse
 //@   use wfSequence(n) at loop 1
@@ -345,6 +349,7 @@ package participle
 //@   requires wf(iface(u))
 //@   ensures wf(iface(&u.disjunction))
 //@ func (*strct).Parse [C11 C02 C01 C06 C17]
+//@   before call node.Parse#1: assert arg1 == ctx [C13 C01 C02]
 //@   frame-tags C09
 //@   implements node.Parse
 //@   use wfStrct(s) at entry
